@@ -136,7 +136,7 @@ func isqrt(x uint64) int {
 	return r
 }
 
-var colNames = []string{"a", "b", "c", "d", "e", "f", "g", "h", "city", "Kind", "x_1", "col7"}
+var colNames = []string{"a", "b", "c", "d", "e", "f", "g", "h", "city", "Kind", "x_1", "col7", "count"}
 
 // GenDataSpec draws a dataset shape (swarm style) with about n rows.
 func GenDataSpec(r *simrt.Rand, n int, wantUnique bool) *DataSpec {
